@@ -95,6 +95,30 @@ CHECKS = {
         "fault injection with exhaustive crash-point enumeration + proptest crash/restart histories, oracle = 'last completed or in progress' over reference-model snapshots",
         "DESIGN.md §5 C10",
     ),
+    "C13": (
+        "wire",
+        "exploration",
+        "Generated pipelined sessions against the whole in-process server over its unix socket: 1-4 concurrent sessions (v1, 20 % v0) each writing 1-25 requests of every message kind in one burst with non-monotonic ids up to u64::MAX and valid/invalid arguments, closed by a sentinel request. For every request exactly one terminal answer with its id and of the kind the protocol assigns (or err with the predicted errorCode; full predicted content on the session's private key space) must have arrived; events only carry ids of acknowledged subscriptions and come after the ack; no foreign ids; the session is still open at the sentinel.",
+        "Answers are predicted only for the private key space of a session and for protected/empty keys; in the shared area only the answer kind is checked. Handshake messages are outside the domain. A 20 s per-session budget that expires drops the case (counted as inconclusive).",
+        "property-based testing: proptest session scripts against an answer-table + reference-model oracle over a real socket",
+        "DESIGN.md §5 C13",
+    ),
+    "C14": (
+        "serde",
+        "exploration",
+        "Round-trip search over all 23 client message variants, 8 server message variants and the cluster sync messages (Init + 4 Mut) with generated fields (u64 / 2^53 boundary ids and versions, empty/unicode/wildcard/line-break strings, optional fields present/absent, nested JSON with raw-bit doubles and envelope-colliding object keys): encoding is a single line, decode(encode(m)) == m, encode(decode(encode(m))) == encode(m). 300 k messages quick, 10 M thorough, plus a coverage-guided libFuzzer target in thorough.",
+        "Encoding/decoding = serde_json::to_string/from_str on the public types, which is what every transport does; sync messages are built from JSON (no public constructor) and compared structurally and as re-encoded JSON values because their maps have no stable iteration order.",
+        "property-based testing: proptest round-trip / idempotence oracle (+ libFuzzer round-trip target)",
+        "DESIGN.md §5 C14",
+    ),
+    "C17": (
+        "wire",
+        "exploration",
+        "Grammar- and mutation-based hostile sessions against the whole in-process server (debug assertions and overflow checks on): 1-30 lines per case - valid messages of every kind with absurd fields, byte-level mutations of them, arbitrary JSON, special lines (wrong types, invalid UTF-8, 1000-fold nesting, 1 MiB values/garbage, 1500-segment keys), protocol switches - interleaved with witness round trips whose every answer and event content is checked, a brand-new client at the end, no panic on any server task, clean stop. 3 k cases quick.",
+        "Hostile sessions always read their socket (slow-reader back-pressure is behaviour, not input). The witness starts a round trip only after all hostile sessions reached a quiescent point and uses fresh keys, so legitimate effects of hostile input cannot fail it. Key depth is limited in process (16 MB harness stack).",
+        "fuzzing / property-based testing: grammar + mutation generated sessions with a witness-session oracle and panic detection (+ libFuzzer session target in thorough)",
+        "DESIGN.md §5 C17",
+    ),
 }
 
 NOT_YET = "check not built yet in this round of the build phase (work in progress, see DESIGN.md §5)"
